@@ -113,6 +113,9 @@ func longBytes(n int) []byte {
 }
 
 func poolOf(t int) []Val {
+	if deep {
+		return deepPoolOf(t)
+	}
 	switch t {
 	case TBool:
 		return boolPool
@@ -305,7 +308,7 @@ func genLattice(seed int64, part, parts int, emit func(*Case) bool) {
 	idx := 0
 	for t := 0; t < nTypes; t++ {
 		for mask := 0; mask < 16; mask++ {
-			for depth := 0; depth < 3; depth++ {
+			for _, depth := range latticeDepths() {
 				for _, pipe := range []bool{false, true} {
 					schemes := valueSchemes(t, mask, pipe)
 					for _, car := range latticeCarriers {
@@ -346,7 +349,7 @@ func genHistoryLattice(r *rand.Rand, idx *int, part, parts int, emit func(*Case)
 	withJSON := latticeCarriers[:5]
 	for t := 0; t < nTypes; t++ {
 		for mask := 0; mask < 16; mask++ {
-			for depth := 0; depth < 3; depth++ {
+			for _, depth := range latticeDepths() {
 				for _, pipe := range []bool{false, true} {
 					all := valueSchemes(t, mask, pipe)
 					var pre, rel [][4]*Val // schemes for (a) and (b)
@@ -460,7 +463,7 @@ func priorOf(r *rand.Rand, cs *Case, maskFor func(orig *Field) int) *Case {
 		return out
 	}
 	p := &Case{Kind: "prior", Root: clone(cs.Root), FileName: r.Intn(len(fileNames)), CfgSyn: r.Intn(4),
-		JSONStyle: r.Intn(4), EmptyObj: r.Intn(2) == 0, Decoy: r.Intn(4) == 0, Shuffle: r.Int63()}
+		JSONStyle: r.Intn(styleRange()), EmptyObj: r.Intn(2) == 0, Decoy: r.Intn(4) == 0, Shuffle: r.Int63()}
 	cars := latticeCarriers
 	if anyJSON {
 		cars = cars[:5]
@@ -483,10 +486,10 @@ func latticeCase(r *rand.Rand, c latticeCell, sch [4]*Val, syn int) (*Case, *Fie
 	fillRandomValues(r, st, sib)
 
 	groups := pickGroups(r, c.depth)
-	fes := r.Perm(len(fieldPool))
+	fes := r.Perm(len(fields()))
 	pickName := func(f *Field) string {
 		for {
-			fe := fieldPool[fes[0]]
+			fe := fields()[fes[0]]
 			fes = fes[1:]
 			if nm.name(f, groups, fe, r.Intn(4), r.Intn(2) == 0) {
 				return fe.Go
@@ -503,7 +506,7 @@ func latticeCase(r *rand.Rand, c latticeCell, sch [4]*Val, syn int) (*Case, *Fie
 		kids = []*Node{{Name: groups[d].Go, Kids: kids}}
 	}
 	cs := &Case{Kind: "lattice", Root: kids, Carrier: c.carrier, PathKind: c.pathKind,
-		FileName: r.Intn(len(fileNames)), CfgSyn: r.Intn(4), JSONStyle: r.Intn(4), EmptyObj: r.Intn(2) == 0,
+		FileName: r.Intn(len(fileNames)), CfgSyn: r.Intn(4), JSONStyle: r.Intn(styleRange()), EmptyObj: r.Intn(2) == 0,
 		Decoy: r.Intn(3) == 0, Shuffle: r.Int63()}
 	if r.Intn(4) == 0 {
 		cs.Tail = tails[r.Intn(len(tails))]
@@ -514,10 +517,10 @@ func latticeCase(r *rand.Rand, c latticeCell, sch [4]*Val, syn int) (*Case, *Fie
 var tails = [][]string{{"pos"}, {"--", "-x=1"}, {"pos", "-debug"}, {"--"}, {"-"}, {"", "-port=1"}}
 
 func pickGroups(r *rand.Rand, depth int) []nameEnt {
-	p := r.Perm(len(groupPool))
+	p := r.Perm(len(groups()))
 	g := make([]nameEnt, depth)
 	for i := range g {
-		g[i] = groupPool[p[i]]
+		g[i] = groups()[p[i]]
 	}
 	return g
 }
@@ -610,6 +613,15 @@ func fillFrom(r *rand.Rand, t int, f *Field, from int) {
 			if !usable(t, &v, s, f.Pipe) {
 				continue
 			}
+			if deep && len(v.S)+len(v.Y) > 8192 && r.Intn(8) != 0 {
+				continue // long values mostly belong to the lattice and the "big" kind: a struct type keeps its tag for ever
+			}
+			if deep && !v.Empty && r.Intn(2) == 0 {
+				v.Fmt = r.Intn(fmtRange(t)) // any spelling of the value
+				if len(v.S) > 1024 && v.Fmt != 3 {
+					v.Fmt = 0 // \\u-escaping every rune of a long string only makes the document six times as long
+				}
+			}
 			if lower != nil && sameVal(t, &v, lower) && try < 20 {
 				continue
 			}
@@ -627,10 +639,29 @@ func fillFrom(r *rand.Rand, t int, f *Field, from int) {
 
 // randCase builds a struct of 1..12 leaves spread over up to three levels of nesting, every leaf
 // with its own type, source mask, tag syntax and values.
-func randCase(r *rand.Rand) *Case {
+func randCase(r *rand.Rand) *Case { return randStruct(r, nil) }
+
+// structOpts steers randStruct away from its defaults (thorough tier only).
+type structOpts struct {
+	n          int   // number of leaves
+	depthTable []int // a leaf's nesting depth is drawn from this table
+	ngroups    int   // how many group names are in play per level
+}
+
+func randStruct(r *rand.Rand, o *structOpts) *Case {
 	nm := newNamer()
-	n := 1 + r.Intn(12)
-	gp := r.Perm(len(groupPool))[:3]
+	depthTable := []int{0, 0, 0, 0, 1, 1, 1, 2, 2, 3}
+	ngroups := 3
+	var n int
+	if o != nil {
+		n, depthTable, ngroups = o.n, o.depthTable, o.ngroups
+	} else {
+		n = 1 + r.Intn(12)
+		if deep {
+			depthTable = []int{0, 0, 0, 1, 1, 2, 2, 3, 4, 5}
+		}
+	}
+	gp := r.Perm(len(groups()))[:ngroups]
 	type dir struct {
 		nodes  []*Node
 		sub    map[string]*dir
@@ -644,10 +675,10 @@ func randCase(r *rand.Rand) *Case {
 	root := newDir(nil)
 	anyJSON := false
 	for i := 0; i < n; i++ {
-		depth := [...]int{0, 0, 0, 0, 1, 1, 1, 2, 2, 3}[r.Intn(10)]
+		depth := depthTable[r.Intn(len(depthTable))]
 		d := root
 		for l := 0; l < depth; l++ {
-			g := groupPool[gp[r.Intn(len(gp))]]
+			g := groups()[gp[r.Intn(len(gp))]]
 			nd := d.sub[g.Go]
 			if nd == nil {
 				nd = newDir(append(append([]nameEnt{}, d.groups...), g))
@@ -661,8 +692,8 @@ func randCase(r *rand.Rand) *Case {
 		f := &Field{Type: typeNames[t], Pipe: r.Intn(2) == 0, Mask: r.Intn(16), UsageMode: r.Intn(3)}
 		fillRandomValues(r, t, f)
 		named := false
-		for _, fi := range r.Perm(len(fieldPool)) {
-			fe := fieldPool[fi]
+		for _, fi := range r.Perm(len(fields())) {
+			fe := fields()[fi]
 			if d.used[fe.Go] {
 				continue
 			}
@@ -681,7 +712,7 @@ func randCase(r *rand.Rand) *Case {
 		}
 	}
 	if r.Intn(10) == 0 { // now and then an empty nested struct
-		g := groupPool[gp[0]]
+		g := groups()[gp[0]]
 		if root.sub[g.Go] == nil {
 			root.sub[g.Go] = newDir([]nameEnt{g})
 			root.nodes = append(root.nodes, &Node{Name: g.Go})
@@ -698,7 +729,7 @@ func randCase(r *rand.Rand) *Case {
 		return d.nodes
 	}
 	cs := &Case{Kind: "random", Root: attach(root), FileName: r.Intn(len(fileNames)), CfgSyn: r.Intn(4),
-		JSONStyle: r.Intn(4), EmptyObj: r.Intn(2) == 0, Decoy: r.Intn(4) == 0, Shuffle: r.Int63()}
+		JSONStyle: r.Intn(styleRange()), EmptyObj: r.Intn(2) == 0, Decoy: r.Intn(4) == 0, Shuffle: r.Int63()}
 	cars := latticeCarriers
 	if anyJSON {
 		cars = cars[:5]
